@@ -57,6 +57,11 @@ CHECKS = {
         text="TLA+ model of the optimizer's target choice (reuse tally visited in any order, same-path tie rule, non-empty same-path fallback, size limits) and rewrite grammar, model-checked over all tallies; what a bsdiff series yields and how the patcher consumes both series kinds are decided by the C12 / C03 / C17 specifications. The real optimizer runs on patches of generated build pairs (incl. tiny files, files smaller than the partition count, empty/tiny old files, content mapped to a differently named file) under seeded partitions 0..16, concurrency, ForceMapAll, size limits and output compression; the optimized patch is decoded independently (control-automaton step equations + digest facts) and applied fresh and in place; TLC requires both results to equal what the original patch yields (= the new build), legal mappings, and no optimizer failure or crash.",
         note="SHA-256 digests stand for byte equality; a crash inside an optimizer goroutine kills the driver and is reported from a marker file.",
         technique="TLA+ model checking (TLC) + trace validation of real optimizer runs against the TLA+ patch-stream property"),
+    "C02": dict(
+        level="model_checking", ref="DESIGN.md §4 C02",
+        text="TLA+ model of the overlay bowl's commit sub-phases over an abstract POSIX file system, with work lists derived from (old,new) as differ + patcher derive them and every order of the transposition map loops / unstable ghost sort, model-checked over all build pairs of a small path universe (62 500 pairs quick, 1.56 M thorough). The same universe is materialised and run through the real differ -> patcher -> overlay bowl with repeated commits (the whole universe in the thorough tier): TLC runs the commit model on each pair, every real outcome must be a terminal state of the model (conformance) and must be the new build with nothing left over (verdict), and the old build must be untouched right before Commit; real-scale generated scenarios (renames, swaps, chains, duplications, patched+renamed, grow/shrink, deleted dirs, symlink changes) are committed repeatedly and checked the same way.",
+        note="POSIX semantics of this sandbox; case-insensitive file systems not exercised; pairs in which a path changes kind are known findings (known_findings.json) matched by (kind transitions, failure mode).",
+        technique="TLA+ model checking (TLC) + real executions of the model's own universe validated against the TLA+ commit model and property"),
 }
 
 NOT_YET = "check not built yet in this round (planned: DESIGN.md §4); not a claim that the technique cannot apply"
